@@ -524,7 +524,8 @@ def netLoop (ord : List Content) (cfg : Cfg) : Nat → List Attempt → NetOut
     | .inl r => r
     | .inr _ => netLoop ord cfg n atts.tail
 
-/-- `does_target_match` on whole `Record`s: a plain target is compared with `target_record == record`, i.e. value, key,
+/-- (Free-standing: not used by `step`, `completedOutcome`, `netTry` or `netLoop`, which carry no record metadata; K-d6 rests
+on the oracle-only component `quorum-net`.) `does_target_match` on whole `Record`s: a plain target is compared with `target_record == record`, i.e. value, key,
 publisher and expiry; `recMeta` = the record handed over (the completing reply's) carries a publisher / an expiry, which
 the caller's target never does. The `is_register` comparison looks at the value only. -/
 def sendCheckedM (cfg : Cfg) (c : Content) (recMeta : Bool) : Outcome :=
